@@ -34,7 +34,30 @@ NEEDS = {
  'C18b-affinity-clip-inside-tau-branch': 'C affinity kernels + penalty larger than the score accumulated at the start of the series',
  'C19-squash-keepsign-base': 'squash logistic + base given + keep_sign=True',
  'C20-search-maxdist-not-reset': 'one SubsequenceSearch object: finite-k query followed by a k=None query',
+ 'C06b-python-matrix-maxlengthdiff-skips-idx': 'Python serial distance matrix + max_length_diff + unequal lengths with a skipped pair followed by an admitted one',
+ 'C09b-lbkeogh-euclidean-envelope-l2-longer': "C lb_keogh + inner_dist='euclidean' + len(s2) > len(s1) + small window",
+ 'C10b-python-band-start-dropped': 'Python distance + window large but binding (|len diff| + 2*window >= len(s2))',
+ 'C11b-ed-ndim-last-vector-stride': 'C n-dim Euclidean bound + d >= 2 + len(s1) < len(s2) (only_ub / use_pruning)',
+ 'C14b-heap-full-strict-threshold': 'max_dist exactly equal to a candidate distance + that candidate arriving when the heap is "full"',
+ 'C15b-tree-mergehook-return-forwarded': 'HierarchicalTree wrapped around a model whose merge hook returns the prototype pair (weight hook) and keeps from_idx at least once',
+ 'C17b-border-gap-needs-both-nonempty': 'exactly one empty sequence + substitution function with gap cost != 1',
+ 'C19b-squash-x0-honoured-gauss-exp': 'squash gaussian/exponential + explicit non-zero x0',
  'C20b-verify-contiguous-fortran': 'n-dim series as Fortran-ordered/transposed 2-D array + C engine pairwise entry point',
+}
+STRENGTHENED = {
+ 'C06-matrix-swapped-pair': 'missed by the first C06 (all settings symmetric); caught after adding one-sided psi settings',
+ 'C07-shared-settings-maxdist': 'missed by the first C07 driver (no pruning setting); caught after adding use_pruning / max_dist+psi settings',
+ 'C14-shared-maxdist-threshold': 'missed by the first C14 histories (3 fixed candidate lists); caught after adding depth-2 histories on every ordered candidate list',
+ 'C06b-python-matrix-maxlengthdiff-skips-idx': 'needed the max_length_diff setting added to C06 while this seed was being run',
+ 'C14b-heap-full-strict-threshold': 'missed (thresholds only in gaps); caught after adding thresholds equal to exactly representable distances',
+ 'C15b-tree-mergehook-return-forwarded': 'missed (tree variant only without weight hook); caught after adding HierarchicalTree around a weighted model',
+ 'C19b-squash-x0-honoured-gauss-exp': 'missed (x0 only generated for logistic); caught after generating x0 for every method',
+ 'C20-search-maxdist-not-reset': 'caught by C14 from the start; C20 itself missed it until model-object histories were added to C20',
+ 'C20b-verify-contiguous-fortran': 'missed (the Fortran/transposed forms had guard rows, hence were not contiguous); caught after adding an exactly F-contiguous form',
+ 'C15-persisted-maxdist-option': 'C15 was extended with real-distance fit histories after reading this seed and before its first run',
+ 'C19-squash-keepsign-base': 'C19 was extended with base=10 after reading this seed and before its first run',
+ 'C03b-pruning-tightest-bound-unsquared': 'C03 was extended with use_pruning+max_dist after reading this seed and before its first run',
+ 'C04b-loc-columns-regionA-ldiff': 'the long-thin-band universes (shapes up to 14) were added after reading this seed and before its first run',
 }
 rows = []
 for d in sorted(glob.glob(os.path.join(VERIF, 'seeded', '*'))):
@@ -50,10 +73,10 @@ for d in sorted(glob.glob(os.path.join(VERIF, 'seeded', '*'))):
                           'demo_exit_with_change': r.get('demo_with_patch'), 'demo_exit_without_change': r.get('demo_without_patch')},
             'what_was_run': 'tools/seedtest.py: scratch worktree of /repo HEAD, git apply patch.diff, build_ext --inplace, tools/baseline.py (pinned suite), demo.py with and without the patch, then the listed checks with VERIF_REPO=<worktree>',
             'checks_run': {p: v['rc'] for p, v in (r.get('checks') or {}).items()},
-            'caught_by': r.get('caught_by')}
+            'caught_by': r.get('caught_by'), 'strengthening': STRENGTHENED.get(name, 'none needed')}
     json.dump(meta, open(os.path.join(d, 'meta.json'), 'w'), indent=1)
-    rows.append('| `%s` | %s | %s | %s | %s |' % (name, prop, NEEDS.get(name, ''), ', '.join(r.get('caught_by') or []) or '**none**',
-                                                 ', '.join(p for p, v in (r.get('checks') or {}).items() if v['rc'] == 0) or '-'))
-print('| seeded change | breaks | needs to manifest | caught by | also run, silent |')
-print('|---|---|---|---|---|')
+    rows.append('| `%s` | %s | %s | %s | %s | %s |' % (name, prop, NEEDS.get(name, '').replace('|', '\\|'), ', '.join(r.get('caught_by') or []) or '**none**',
+                                                 ', '.join(p for p, v in (r.get('checks') or {}).items() if v['rc'] == 0) or '-', STRENGTHENED.get(name, '')))
+print('| seeded change | breaks | needs to manifest | caught by | also run, silent | strengthening |')
+print('|---|---|---|---|---|---|')
 print('\n'.join(rows))
